@@ -23,6 +23,8 @@ Walk(items, tables, j, stack, out) ==
     IF j > Len(items) THEN [ok |-> TRUE, out |-> out]
     ELSE LET it == items[j] top == stack[Len(stack)] IN
          CASE it.k = "open"  -> Walk(items, tables, j + 1, Append(stack, top), out)
+           \* an .if opens no scope: what its branch loads stays in force after it
+           [] it.k \in {"ifopen", "ifclose"} -> Walk(items, tables, j + 1, stack, out)
            [] it.k = "close" -> Walk(items, tables, j + 1, SubSeq(stack, 1, Len(stack) - 1), out)
            [] it.k = "table" -> Walk(items, tables, j + 1, [stack EXCEPT ![Len(stack)] = it.t], out)
            [] it.k = "text"  -> IF top = 0 THEN [ok |-> FALSE, out |-> out]
